@@ -316,7 +316,7 @@ func checkCmd(opts *RunOpts, args []string) int {
 	witnessCache := map[string]bool{}
 	var unsatCore []string
 	cexCache := map[string]*Cex{}
-	var cov_order, cov_rel, cov_neg, cov_q, cov_d, cov_f, cov_w, cov_su, cov_c, cov_s, cov_t map[string]any
+	var cov_order, cov_rel, cov_neg, cov_q, cov_h, cov_d, cov_f, cov_w, cov_su, cov_c, cov_s, cov_t map[string]any
 
 	for _, res := range run.Results {
 		if res.Trusted {
@@ -628,6 +628,15 @@ func checkCmd(opts *RunOpts, args []string) int {
 		}
 		cov_q = cv
 	}
+	if run.HRan {
+		_, vl, cv := boundedListVerdict(opts, prop, known, "bounded.history.log", "none.txt", run.HFailing, run.HTotal,
+			"in-memory history on the real machine: states A, B (Multi), C (Removes A); every history of up to 3 Add/Remove mutations; tracking configurations {all states, reordered subset, MaxRecords=2, Changed allow-list, Called block-list, TrackRejected}; queries Active / Inactive / Activated / Deactivated per tracked state, alone, with machine-time-sum ranges and with limit 1; the *Between helpers; Export -> Import on a fresh machine",
+			"", "break the log (one record per matching transition, in order, tracked times = machine time after it, bounded by MaxRecords) or a query (FindLatest returns precisely the matching records, newest first; *Between helpers agree with the log) or the Export/Import round trip", nil)
+		if vl != "" {
+			violations = append(violations, vl)
+		}
+		cov_h = cv
+	}
 	if run.RelRan {
 		kl, vl, cv := boundedListVerdict(opts, prop, known, "bounded.resolver.relations", "c02_bounded_known.txt", run.RelFailing, run.RelTotal,
 			fmt.Sprintf("4-state schemas with at most %d relations (Add/Remove/Require, one target each), start sets {} and {X}, single-state Add/Remove/Set", run.RelBound),
@@ -733,6 +742,9 @@ func checkCmd(opts *RunOpts, args []string) int {
 	}
 	if cov_d != nil {
 		cov["bounded_dispose_standin"] = cov_d
+	}
+	if cov_h != nil {
+		cov["bounded_history_standin"] = cov_h
 	}
 	if cov_q != nil {
 		cov["bounded_queue_standin"] = cov_q
